@@ -25,7 +25,7 @@ Fixpoint c02_walk (sends : list (list dop)) (os : list sobs) : bool :=
 Definition C02_holds_on (c : hcase) (o : list sobs * fobs) : bool := c02_walk (hc_sends c) (fst o).
 
 Definition c02_wf (c : hcase) (os : list sobs) : bool :=
-  forallb (fun ds => c02_in_scope (set_of (ops_of ds))) (hc_sends c) &&
+  forallb (fun ds => c02_in_scope (set_of (ops_of ds)) && case_set_ok (set_of (ops_of ds))) (hc_sends c) &&
   forallb (fun o => match so_res o with ROk _ => true | _ => false end) os.
 
 Definition c02_run (case obs : list string) : string :=
